@@ -76,6 +76,10 @@ func c17Grid(full bool) []dtStr {
 	for _, s := range []string{"2023-08-15T12:34:56+01:00", "2023-08-15T11:34:56Z", "2023-08-15T17:04:56+05:30", "2023-08-14T23:34:56-12:00"} {
 		out = append(out, dtStr{s, "timestamptz"})
 	}
+	// the spelling other software writes: 'T', fractional seconds, 'Z'
+	for _, s := range []string{"2023-08-15T12:34:56.789Z", "2024-05-05T20:59:19.791423Z", "2023-03-26T01:30:00.4999995Z", "1999-12-31T23:59:59.9999995Z", "2024-02-29T23:59:59.95Z", "2023-11-05T05:59:59.123456789Z"} {
+		out = append(out, dtStr{s, "timestamptz"})
+	}
 	// non-datetime inputs
 	for _, s := range []string{"", "abc", "2023-13-01", "2023-02-30", "24:00:00", "12:60:00", "12:34:60", "2023-08-15T", "2023-08-15 12:34", "12:34", "2023-8-15", "2023-08-15T12:34:56+1", "2023-08-15T12:34:56 +01", "15/08/2023", "12:34:56+25"} {
 		out = append(out, dtStr{s, "bad"})
